@@ -80,7 +80,7 @@ import ast
 import itertools
 
 from ..cfg import ALL, NORMAL
-from ..dataflow import _def_node_ids, origins, reaching_defs
+from ..dataflow import _def_node_ids, defs_of, origins, reaching_defs
 from ..facts import atoms, facts_at
 from ..model import contains_await, dotted, parent, ancestors, unparse, walk_no_nested
 from ..selftest import V
@@ -886,6 +886,9 @@ def r4(ctx):
             uncond = bool(heads) and all(
                 g.path(s, [heads[0]], avoid=g.node_containing(c)) is None for s in branch_succ(g, heads[0], "t") if s not in g.node_containing(c))
             started.append((c, wrapped and tasked and uncond))
+    # the same enumeration written as a comprehension / generator over every step (`executions.extend(<task> for step in ..)`)
+    comp_starts = _comp_starts(run, g)
+    started += [(c, o) for c, o, _ in comp_starts]
     ctx.ob("R4", "executor.run starts every step as a task wrapped by _handle_exception", bool(started) and all(o for _, o in started),
            func=run, node=(started[0][0] if started else run.node), instance="executor.run:wrap",
            message="a step's run() is not started for every step under _handle_exception: its failure would go unnoticed and the others hang")
@@ -987,6 +990,7 @@ def r4(ctx):
         for x in n.walk())]
     collected = [n.id for n in g.nodes.values() if any(
         method_call(c, "append") and is_self_attr(c.func.value, "executions") for c in node_calls(g, n))]
+    collected += _comp_collected(run, g, comp_starts)
     waited = bool(checks) and bool(waits) and bool(collected) and all(g.dominates(waits, i) for _, ids, _ in checks for i in ids)
     ctx.ob("R4", "executor.run waits for the step tasks (gather) or for close() before it inspects the statuses", waited, func=run, node=run.node,
            instance="executor.run:wait", message="executor.run can inspect the step statuses / return while steps are still running")
@@ -1070,6 +1074,124 @@ def r4(ctx):
            message="_wait_outputs does not close the executor exactly when every output port delivered its termination token")
     _cancel_rule(ctx)
 
+
+
+EAGER_CONSUMERS = {"list", "tuple", "set", "frozenset", "sorted", "deque"}
+
+
+def _eager_in(c, top) -> bool:
+    """`c` is evaluated every time the element expression `top` is: nothing between them defers it (lambda, inner
+    comprehension) or makes it conditional (`a if t else b`, the right-hand side of `and`/`or`, a chained comparison)."""
+    if c is top:
+        return True
+    child = c
+    for a in ancestors(c):
+        if isinstance(a, ast.IfExp) and child is not a.test:
+            return False
+        if isinstance(a, ast.BoolOp) and child is not a.values[0]:
+            return False
+        if isinstance(a, ast.Compare) and len(a.ops) > 1 and child is not a.left and child is not a.comparators[0]:
+            return False
+        if a is top:
+            return True
+        if isinstance(a, (ast.Lambda, ast.ListComp, ast.SetComp, ast.DictComp, ast.GeneratorExp)):
+            return False
+        child = a
+    return False
+
+
+def _eager_consumer(e) -> bool:
+    """The iterable expression `e` is exhausted where it stands: `list(e)` & co, `<x>.extend(e)`, `f(*e)`, `<x> += e`."""
+    pa = parent(e)
+    if isinstance(pa, ast.Call) and len(pa.args) == 1 and pa.args[0] is e and not pa.keywords:
+        return method_call(pa, "extend") or (isinstance(pa.func, ast.Name) and pa.func.id in EAGER_CONSUMERS) \
+            or (dotted(pa.func) or "") == "collections.deque"
+    if isinstance(pa, ast.Starred) and isinstance(parent(pa), ast.Call):
+        return True
+    return isinstance(pa, ast.AugAssign) and isinstance(pa.op, ast.Add) and pa.value is e
+
+
+def _comp_consumed(f, g, comp) -> bool:
+    """Every element of the comprehension is produced: a list/set comprehension is eager; a generator expression must be
+    handed directly to an eager consumer, or sit in a local (its only definition) whose single use is an eager consumer
+    that every path from the definition to the normal exit passes."""
+    if isinstance(comp, (ast.ListComp, ast.SetComp)):
+        return True
+    if _eager_consumer(comp):
+        return True
+    pa = parent(comp)
+    name = None
+    if isinstance(pa, ast.Assign) and len(pa.targets) == 1 and isinstance(pa.targets[0], ast.Name) and pa.value is comp:
+        name = pa.targets[0].id
+    elif isinstance(pa, ast.NamedExpr) and pa.value is comp:
+        name = pa.target.id
+    if name is None:
+        return False
+    if len(defs_of(f, name)) != 1:
+        return False
+    uses = [x for x in f.body_nodes() if isinstance(x, ast.Name) and x.id == name and isinstance(x.ctx, ast.Load)]
+    if len(uses) != 1 or not _eager_consumer(uses[0]):
+        return False
+    dn, un = g.node_containing(comp), g.node_containing(uses[0])
+    return bool(dn) and bool(un) and all(d in un or g.escape(d, un, targets=[g.exit]) is None for d in dn)
+
+
+def _comp_starts(f, g):
+    """[(run call, ok, comprehension)]: `<x>.run()` in the element expression of a comprehension / generator expression
+    whose single `for <x> in ..` enumerates the whole `self.workflow.steps` map.  ok -- the call is wrapped by
+    `self._handle_exception(..)` and a task constructor *inside the element*, evaluated for every element (no filter, no
+    conditional / deferred context) and the comprehension is really exhausted (see _comp_consumed)."""
+    out = []
+    for comp in [n for n in f.body_nodes() if isinstance(n, (ast.ListComp, ast.SetComp, ast.GeneratorExp))]:
+        if len(comp.generators) != 1:
+            continue
+        gen = comp.generators[0]
+        if not isinstance(gen.target, ast.Name) or not whole(f, gen.iter, _steps_values, ordered=False):
+            continue
+        v = gen.target.id
+        inside = {id(x) for x in ast.walk(comp.elt)}
+        for c in [x for x in ast.walk(comp.elt) if method_call(x, "run") and is_name(x.func.value, v)]:
+            wraps = [a for a in ancestors(c) if isinstance(a, ast.Call) and id(a) in inside]
+            wrapped = any(self_call(a, "_handle_exception") for a in wraps)
+            tasked = any((dotted(a.func) or "").split(".")[-1] in ("create_task", "ensure_future") for a in wraps)
+            every = not gen.ifs and not gen.is_async and _eager_in(c, comp.elt)
+            out.append((c, wrapped and tasked and every and _comp_consumed(f, g, comp), comp))
+    return out
+
+
+def _comp_collected(f, g, comp_starts) -> list[int]:
+    """CFG nodes that put the tasks started by a comprehension into `self.executions`: `self.executions.extend(<comp>)`,
+    `self.executions += <comp>`, `self.executions = <comp>` where <comp> is the comprehension itself (also inside
+    `list(..)` & co) or a local that holds it."""
+    comps = [comp for _, o, comp in comp_starts if o]
+    if not comps:
+        return []
+
+    def carries(e, depth: int = 3) -> bool:
+        for o in orig(f, e):
+            while isinstance(o, ast.Call) and len(o.args) == 1 and not o.keywords and isinstance(o.func, ast.Name) and o.func.id in EAGER_CONSUMERS:
+                o = o.args[0]
+            if any(o is k for k in comps):
+                return True
+            if isinstance(o, ast.Name) and o is not e and depth > 0 and carries(o, depth - 1):
+                return True
+        return False
+
+    out = []
+    for n in g.nodes.values():
+        if n.kind != "stmt" or n.ast is None:
+            continue
+        hit = False
+        for x in n.walk():
+            if method_call(x, "extend") and is_self_attr(x.func.value, "executions") and len(x.args) == 1 and carries(x.args[0]):
+                hit = True
+            if isinstance(x, ast.AugAssign) and isinstance(x.op, ast.Add) and is_self_attr(x.target, "executions") and carries(x.value):
+                hit = True
+            if isinstance(x, ast.Assign) and any(is_self_attr(t, "executions") for t in x.targets) and carries(x.value):
+                hit = True
+        if hit:
+            out.append(n.id)
+    return out
 
 
 def _term_atom(p, f, a) -> bool:
@@ -2112,6 +2234,28 @@ def _esplit(helper_body: str, call: str = "self._raise_if_failed()") -> str:
             + _ind(helper_body, 8))
 
 
+_ETASK = "asyncio.create_task(self._handle_exception(asyncio.create_task(step.run())), name=step.name)"
+_ESTART = f"for step in self.workflow.steps.values():\n    execution = {_ETASK}\n    self.executions.append(execution)"
+
+
+_EMID = _ind(
+    "if self.workflow.persistent_id:\n"
+    "    await self.workflow.context.database.update_workflow(self.workflow.persistent_id, {'status': Status.RUNNING.value})\n"
+    "if self.workflow.output_ports:\n"
+    "    output_consumer = utils.random_name()\n"
+    "    for port_name, port in self.workflow.get_output_ports().items():\n"
+    "        self.output_tasks[port_name] = asyncio.create_task(self._handle_exception(asyncio.create_task(port.get(output_consumer))), name=port_name)\n"
+    "    while not await self.closed():\n"
+    "        output_tokens = await self._wait_outputs(output_consumer, output_tokens)\n"
+    "else:\n"
+    "    await asyncio.gather(*self.executions)", 8)
+
+
+def _estart(new: str):
+    """executor.run with the loop that starts the steps replaced."""
+    return dict(file=EFILE, target=f"{EXEC}.run", old=_ind(_ESTART, 8), new=_ind(new, 8))
+
+
 def _erun(new: str):
     return dict(file=EFILE, target=f"{EXEC}.run", old=_ind(_ECHECK, 8), new=_ind(new, 8))
 
@@ -2147,6 +2291,31 @@ VARIANTS += [
     V("status-check helper can return before it looked at the steps", EFILE, EXEC, _EOLD, _esplit("if not self.workflow.persistent_id:\n    return\n" + _ECHECK), "R4"),
     V("status-check helper ignores CANCELLED", EFILE, EXEC, _EOLD, _esplit(_ECHECK.replace("[Status.FAILED, Status.CANCELLED]", "[Status.FAILED]")), "R4"),
     V("status-check helper is a coroutine that is never awaited", EFILE, EXEC, _EOLD, _esplit(_ECHECK).replace("    def _raise_if_failed", "    async def _raise_if_failed"), "R4"),
+    # B18-4: the loop that starts the steps written as `self.executions.extend(<generator over every step>)`
+    V("benign: steps started by executions.extend over a generator", expect=None, **_estart(f"self.executions.extend(({_ETASK} for step in self.workflow.steps.values()))")),
+    V("benign: steps started by executions += list comprehension", expect=None, **_estart(f"self.executions += [{_ETASK} for step in self.workflow.steps.values()]")),
+    V("benign: steps started by a generator held in a local, then extend", expect=None,
+      **_estart(f"tasks = ({_ETASK} for step in list(self.workflow.steps.values()))\nlogger.debug('starting')\nself.executions.extend(tasks)")),
+    V("benign: B18-4 as a whole (extend over a generator, any() status check)", EFILE, f"{EXEC}.run", _ind(_ESTART, 8) + "\n" + _EMID + "\n" + _ind(_ECHECK, 8),
+      _ind(f"self.executions.extend(({_ETASK} for step in self.workflow.steps.values()))", 8) + "\n" + _EMID + "\n" + _ind(f"if {_EANY}:\n    {_ERAISE}", 8), None),
+    V("generator start: steps run without _handle_exception", expect="R4",
+      **_estart("self.executions.extend((asyncio.create_task(step.run(), name=step.name) for step in self.workflow.steps.values()))")),
+    V("generator start: _handle_exception wraps the generator, not each step", expect="R4",
+      **_estart("self.executions.append(asyncio.create_task(self._handle_exception(asyncio.gather(*(step.run() for step in self.workflow.steps.values())))))")),
+    V("generator start: only steps that have input ports are started", expect="R4",
+      **_estart(f"self.executions.extend(({_ETASK} for step in self.workflow.steps.values() if step.input_ports))")),
+    V("generator start: the first step is skipped", expect="R4",
+      **_estart(f"self.executions.extend(({_ETASK} for step in list(self.workflow.steps.values())[1:]))")),
+    V("generator start: a step is started only under a condition", expect="R4",
+      **_estart(f"self.executions.extend((step.input_ports and {_ETASK} for step in self.workflow.steps.values()))")),
+    V("generator start: the generator is never consumed", expect="R4",
+      **_estart(f"tasks = ({_ETASK} for step in self.workflow.steps.values())\nself.executions.extend([])")),
+    V("generator start: the generator is consumed on one path only", expect="R4",
+      **_estart(f"tasks = ({_ETASK} for step in self.workflow.steps.values())\nif self.workflow.persistent_id:\n    self.executions.extend(tasks)")),
+    V("generator start: consumed by a short-circuiting any()", expect="R4",
+      **_estart(f"any(({_ETASK} for step in self.workflow.steps.values()))")),
+    V("generator start: the tasks are not collected in self.executions", expect="R4",
+      **_estart(f"started = [{_ETASK} for step in self.workflow.steps.values()]")),
     # B12-2: the task loop of ExecuteStep.run moved wholesale into a second method
     V("benign: ExecuteStep.run task loop moved into _run_jobs", SFILE, XSTEP, _XOLD, _xsplit(), None),
     V("benign: ExecuteStep.run task loop moved into _run_jobs, result through temporaries", SFILE, XSTEP, _XOLD,
